@@ -555,13 +555,11 @@ class PWLCalibration(keras.layers.Layer):
     Returns:
       List of assertion ops in graph mode or immediately asserts in eager mode.
     """
-    # Assert by computing outputs for keypoints and testing them against
-    # constraints.
-    test_inputs = tf.constant(
-        value=self.input_keypoints,
-        dtype=self.dtype,
-        shape=[len(self.input_keypoints), 1])
-    outputs = self.call(test_inputs)
+    # Assert by testing outputs at keypoints against constraints. They are taken
+    # from the kernel rather than from `call()`, whose result depends on
+    # 'split_outputs', on missing value imputation and, for learned keypoints,
+    # is not evaluated at the current keypoint positions.
+    outputs = self.keypoints_outputs()
 
     asserts = pwl_calibration_lib.assert_constraints(
         outputs=outputs,
